@@ -62,6 +62,10 @@ def compare_errors(l_errors, e_errors, depth, inner_keyref=False, padded=False):
     subsequences (above / inside the chunks) are each in the fully loaded order."""
     if l_errors == e_errors:
         return None
+    # F-C06-k: a large document: the path of an error in an early chunk is computed while the later siblings of
+    # its ancestors are not parsed yet, so the positional index [1] of the first of several siblings is missing
+    if padded and [(p.replace("[1]", ""), r) for p, r in l_errors] == [(p.replace("[1]", ""), r) for p, r in e_errors]:
+        return "errors", "F-C06-k"
     if sorted(l_errors) != sorted(e_errors):
         # F-C06-f: key references of a constraint declared BELOW the root, lazy depth >= 2: lost or
         # reported at the root; everything else is reported identically
@@ -71,8 +75,8 @@ def compare_errors(l_errors, e_errors, depth, inner_keyref=False, padded=False):
             return "errors", "F-C06-f"
         # F-C06-j: a document larger than the parser's read-ahead: the rows of a constraint declared on an
         # ANCESTOR of the streamed elements that are parsed after the first selection are never counted
-        if padded and [x for x in l_errors if not any(m in x[1] for m in IDENT_MARKS)] == \
-                [x for x in e_errors if not any(m in x[1] for m in IDENT_MARKS)]:
+        if padded and [(x[0].replace("[1]", ""), x[1]) for x in l_errors if not any(m in x[1] for m in IDENT_MARKS)] == \
+                [(x[0].replace("[1]", ""), x[1]) for x in e_errors if not any(m in x[1] for m in IDENT_MARKS)]:
             return "errors", "F-C06-j"
         # F-C06-h: a streamed element that no declaration matches (admitted by a strict wildcard of its
         # parent) is skipped silently: the 'element not found' error located at it is missing, nothing else
